@@ -364,23 +364,23 @@ def raiseSites6 : List Site := [
   ⟨929, 932, 3662, 3, [180], true, true, [108, 80, 164], false⟩,  -- 343 duckdb_transpiler/Transpiler/__init__.py:3662
   ⟨929, 933, 3851, 3, [624], true, true, [], false⟩,  -- 344 duckdb_transpiler/Transpiler/__init__.py:3851
   ⟨934, 935, 140, 3, [475], true, true, [474, 164, 472], false⟩,  -- 345 duckdb_transpiler/Transpiler/operators.py:140
-  ⟨936, 937, 63, 2, [653], true, true, [651, 44], false⟩,  -- 346 duckdb_transpiler/io/_execution.py:63
-  ⟨936, 938, 80, 2, [712], true, true, [164], false⟩,  -- 347 duckdb_transpiler/io/_execution.py:80
-  ⟨936, 938, 88, 2, [710], true, true, [164, 708, 709], false⟩,  -- 348 duckdb_transpiler/io/_execution.py:88
-  ⟨936, 938, 95, 2, [702], true, true, [164], false⟩  -- 349 duckdb_transpiler/io/_execution.py:95
+  ⟨936, 937, 64, 2, [653], true, true, [651, 44], false⟩,  -- 346 duckdb_transpiler/io/_execution.py:64
+  ⟨936, 938, 81, 2, [712], true, true, [164], false⟩,  -- 347 duckdb_transpiler/io/_execution.py:81
+  ⟨936, 938, 89, 2, [710], true, true, [164, 708, 709], false⟩,  -- 348 duckdb_transpiler/io/_execution.py:89
+  ⟨936, 938, 96, 2, [702], true, true, [164], false⟩  -- 349 duckdb_transpiler/io/_execution.py:96
 ]
 def raiseSites7 : List Site := [
-  ⟨936, 938, 99, 2, [715], true, true, [655], false⟩,  -- 350 duckdb_transpiler/io/_execution.py:99
-  ⟨936, 938, 108, 2, [235], true, true, [158, 159, 44], false⟩,  -- 351 duckdb_transpiler/io/_execution.py:108
-  ⟨936, 938, 113, 2, [235], true, true, [158, 159, 44], false⟩,  -- 352 duckdb_transpiler/io/_execution.py:113
-  ⟨936, 938, 118, 2, [235], true, true, [158, 159, 44], false⟩,  -- 353 duckdb_transpiler/io/_execution.py:118
-  ⟨936, 938, 127, 2, [680], true, true, [665], false⟩,  -- 354 duckdb_transpiler/io/_execution.py:127
-  ⟨936, 938, 131, 2, [456], true, true, [164], false⟩,  -- 355 duckdb_transpiler/io/_execution.py:131
-  ⟨936, 938, 137, 3, [494], true, true, [492, 493, 164], false⟩,  -- 356 duckdb_transpiler/io/_execution.py:137
-  ⟨936, 938, 141, 2, [220], true, true, [164], false⟩,  -- 357 duckdb_transpiler/io/_execution.py:141
-  ⟨936, 938, 143, 2, [220], true, true, [164], false⟩,  -- 358 duckdb_transpiler/io/_execution.py:143
-  ⟨936, 938, 147, 2, [460], true, true, [164, 44], false⟩,  -- 359 duckdb_transpiler/io/_execution.py:147
-  ⟨936, 938, 151, 2, [450], true, true, [164, 44], false⟩,  -- 360 duckdb_transpiler/io/_execution.py:151
+  ⟨936, 938, 100, 2, [715], true, true, [655], false⟩,  -- 350 duckdb_transpiler/io/_execution.py:100
+  ⟨936, 938, 109, 2, [235], true, true, [158, 159, 44], false⟩,  -- 351 duckdb_transpiler/io/_execution.py:109
+  ⟨936, 938, 114, 2, [235], true, true, [158, 159, 44], false⟩,  -- 352 duckdb_transpiler/io/_execution.py:114
+  ⟨936, 938, 119, 2, [235], true, true, [158, 159, 44], false⟩,  -- 353 duckdb_transpiler/io/_execution.py:119
+  ⟨936, 938, 128, 2, [680], true, true, [665], false⟩,  -- 354 duckdb_transpiler/io/_execution.py:128
+  ⟨936, 938, 132, 2, [456], true, true, [164], false⟩,  -- 355 duckdb_transpiler/io/_execution.py:132
+  ⟨936, 938, 138, 3, [494], true, true, [492, 493, 164], false⟩,  -- 356 duckdb_transpiler/io/_execution.py:138
+  ⟨936, 938, 142, 2, [220], true, true, [164], false⟩,  -- 357 duckdb_transpiler/io/_execution.py:142
+  ⟨936, 938, 144, 2, [220], true, true, [164], false⟩,  -- 358 duckdb_transpiler/io/_execution.py:144
+  ⟨936, 938, 148, 2, [460], true, true, [164, 44], false⟩,  -- 359 duckdb_transpiler/io/_execution.py:148
+  ⟨936, 938, 152, 2, [450], true, true, [164, 44], false⟩,  -- 360 duckdb_transpiler/io/_execution.py:152
   ⟨939, 940, 72, 0, [106], true, true, [29], false⟩,  -- 361 duckdb_transpiler/io/_io.py:72
   ⟨939, 941, 104, 0, [117], true, true, [112, 91, 29, 114], false⟩,  -- 362 duckdb_transpiler/io/_io.py:104
   ⟨939, 942, 254, 1, [54], true, true, [52, 50], false⟩,  -- 363 duckdb_transpiler/io/_io.py:254
